@@ -116,11 +116,39 @@ theorem coll_elems (ts : Syntax) (dict : Tag → Option VR) : ∀ (es : Elems), 
     obtain ⟨m2, h1, r2⟩ := coll_pix ok ts.bigEndian (more.tokens.map (normTok ts.bigEndian) ++ rest) m1 l'
       (by rw [hts1]) k r1 (by omega)
     have hts2 : m2.dec.ts = ts := by
-      have := LRun.ts r2
-      sorry
-    sorry
+      -- the decoder's syntax never changes along a run: `m1` and `m2` both run to `l'`
+      have e1 := LRun.ts r1
+      have e2 := LRun.ts r2
+      rw [← e2, e1, hts1]
+    obtain ⟨m, st', e1, e2, e3⟩ := coll_elems ts dict more hc.2 (k + 1) inItem rest m2 l' .inPixelData
+      (acc ++ [.pix bot frags]) hts2 r2 (by omega)
+    refine ⟨m, st', e1, e2, ?_⟩
+    rw [collectElements]
+    simp only [hpk, tokTag, stopAt, Bool.or_self, Bool.false_eq_true, if_false]
+    have hne : (Token.pixelSequenceStart = Token.itemEnd) = False := by simp
+    simp only [hne, if_false, collectOne, hadv, h1]
+    rw [e3]
+    simp [cnt, cnElems, cnElem, toList, List.append_assoc]
   | .cons (.seq tag len items) more, hc, fuel, inItem, rest, l, l', st, acc, hts, hr, hf => by
-    sorry
+    simp only [canonElems, Bool.and_eq_true] at hc
+    have ok := seqOk_of_canon hc.1
+    simp only [Elems.tokens, Elem.tokens, List.map_append, List.map_cons, List.map_nil, normTok, List.cons_append,
+      List.nil_append, List.append_assoc, List.length_append, List.length_cons, List.length_nil] at hr hf
+    obtain ⟨m1, s1, r1⟩ := hr.head
+    obtain ⟨k, rfl⟩ : ∃ k, fuel = k + 2 := ⟨fuel - 2, by omega⟩
+    obtain ⟨hpk, hadv⟩ := peek_of_lstep s1 rfl
+    have hts1 : m1.dec.ts = ts := by rw [s1.ts, hts]
+    obtain ⟨m2, st2, hts2, r2, h1⟩ := coll_items ts dict items ok.items k
+      (more.tokens.map (normTok ts.bigEndian) ++ rest) m1 l' .inDataset [] hts1 r1 (by omega)
+    obtain ⟨m, st', e1, e2, e3⟩ := coll_elems ts dict more hc.2 (k + 1) inItem rest m2 l' st2
+      (acc ++ [.seq tag len (cnItems items)]) hts2 r2 (by omega)
+    refine ⟨m, st', e1, e2, ?_⟩
+    rw [collectElements]
+    simp only [hpk, tokTag, stopAt, Bool.or_self, Bool.false_eq_true, if_false]
+    have hne : (Token.sequenceStart tag len = Token.itemEnd) = False := by simp
+    simp only [hne, if_false, collectOne, hadv, h1, List.nil_append, itemsOfList_toList]
+    rw [e3]
+    simp [cnt, cnElems, cnElem, toList, List.append_assoc]
 theorem coll_items (ts : Syntax) (dict : Tag → Option VR) : ∀ (its : Items), canonItems ts dict its = true →
     ∀ (fuel : Nat) (rest : List Token) (l l' : LState) (st : CState) (acc : List (Nat × Elems)),
     l.dec.ts = ts → LRun l (its.tokens.map (normTok ts.bigEndian) ++ .sequenceEnd :: rest) l' →
@@ -128,9 +156,39 @@ theorem coll_items (ts : Syntax) (dict : Tag → Option VR) : ∀ (its : Items),
     ∃ m st', m.dec.ts = ts ∧ LRun m rest l' ∧
       collectSequence fuel ⟨l, st⟩ acc = .ok (acc ++ itemsToList (cnItems its), ⟨m, st'⟩)
   | .nil, _, fuel, rest, l, l', st, acc, hts, hr, hf => by
-    sorry
+    cases fuel with
+    | zero => simp at hf
+    | succ k =>
+      simp only [Items.tokens, List.map_nil, List.nil_append] at hr
+      obtain ⟨m, s1, r1⟩ := hr.head
+      refine ⟨m, st, by rw [s1.ts, hts], r1, ?_⟩
+      simp [collectSequence, lstep_adv s1 rfl, cnItems, itemsToList]
   | .cons len es more, hc, fuel, rest, l, l', st, acc, hts, hr, hf => by
-    sorry
+    obtain ⟨ok, hmore⟩ := itemOk_of_canon hc
+    simp only [Items.tokens, List.map_append, List.map_cons, normTok, List.cons_append, List.append_assoc,
+      List.length_append, List.length_cons] at hr hf
+    obtain ⟨m1, s1, r1⟩ := hr.head
+    obtain ⟨k, rfl⟩ : ∃ k, fuel = k + 1 := ⟨fuel - 1, by omega⟩
+    have hts1 : m1.dec.ts = ts := by rw [s1.ts, hts]
+    have hcnt := cnt_le_tokens es ok.elems
+    -- the elements of the item, then its end
+    obtain ⟨m2, st2, hts2, r2, h1⟩ := coll_elems ts dict es ok.elems k true
+      (.itemEnd :: (more.tokens.map (normTok ts.bigEndian) ++ .sequenceEnd :: rest)) m1 l' st [] hts1 r1 (by omega)
+    obtain ⟨m3, s3, r3⟩ := r2.head
+    obtain ⟨hpk, hadv⟩ := peek_of_lstep s3 rfl
+    have hts3 : m3.dec.ts = ts := by rw [s3.ts, hts2]
+    obtain ⟨m, st', e1, e2, e3⟩ := coll_items ts dict more hmore k rest m3 l' st2
+      (acc ++ [(undefinedLen, cnElems es)]) hts3 r3 (by omega)
+    refine ⟨m, st', e1, e2, ?_⟩
+    have hstep : collectElements (k - cnt es) true none none ⟨m2, st2⟩ ([] ++ toList (cnElems es)) =
+        .ok (toList (cnElems es), ⟨m3, st2⟩) := by
+      have : k - cnt es = (k - cnt es - 1) + 1 := by omega
+      rw [this, collectElements]
+      simp [hpk, hadv]
+    rw [collectSequence]
+    simp only [lstep_adv s1 rfl, h1, hstep, objectOf_cn es ok.sorted]
+    rw [e3]
+    simp [cnItems, itemsToList, List.append_assoc]
 end
 
 end Dicom.CW
